@@ -428,6 +428,13 @@ func c13Gen(rt *rapid.T) c13Prog {
 				wOp{K: "pub", S: 1, T: "p1", A: "call", H: map[string]any{"webrtc": "started", "mime": c15Mime}},
 				wOp{K: "raw", S: 2, A: `{"note":{"topic":"$u0","what":"call","event":"accept","seq":` + fmt.Sprint(c13Pick(rt, []int{1, 1, 2, 3}, "callseq")) + `}}`},
 				wOp{K: "pause", S: 2}, wOp{K: "flood", S: 1, T: "p1", N: 200}, wOp{K: "resume", S: 2}, wOp{K: "sub", S: 2, T: "p0"}, wOp{K: "pub", S: 2, T: "p0"})
+			if c13Maybe(rt, 50) {
+				// ... or the caller stops reading before the call is answered: its queue is full at the moment
+				// the acceptance is delivered
+				p.Ops = append(p.Ops[:len(p.Ops)-6], wOp{K: "pause", S: 1}, wOp{K: "flood", S: 2, T: "p0", N: c13Pick(rt, []int{157, 158, 159, 160, 161}, "prefill")},
+					wOp{K: "raw", S: 2, A: `{"note":{"topic":"$u0","what":"call","event":"accept","seq":` + fmt.Sprint(c13Pick(rt, []int{1, 1, 2, 3}, "callseq2")) + `}}`},
+					wOp{K: "resume", S: 1}, wOp{K: "sub", S: 1, T: "p1"}, wOp{K: "pub", S: 1, T: "p1"})
+			}
 		case c13Maybe(rt, 3) && p.Sess[1] >= 0:
 			// a client stops reading while the topic it is attached to is busy: the server drops it
 			p.Ops = append(p.Ops, wOp{K: "sub", S: 1, T: "g0"}, wOp{K: "sub", S: s, T: "g0"}, wOp{K: "pause", S: s}, wOp{K: "flood", S: 1, T: "g0", N: 200}, wOp{K: "resume", S: s})
